@@ -143,7 +143,7 @@ def gen_history(rng):
 
 def gen_vector_spec(rng, nodes):
     """A vector described relative to the current local vector (resolved at run time)."""
-    kind = rng.choice(['newer', 'newer', 'older', 'equal', 'identical', 'incomparable', 'unknown-node', 'self-too-much', 'self-too-much-twice', 'self-ok',
+    kind = rng.choice(['newer', 'newer', 'older', 'equal', 'identical', 'incomparable', 'unknown-node', 'many-nodes', 'self-too-much', 'self-too-much-twice', 'self-ok',
                        'no-seq', 'no-id', 'undecodable', 'undecodable-inner', 'undecodable-inner', 'wrong-length', 'empty'])
     big = rng.random() < 0.12       # sequence numbers are 64-bit: some vectors jump across the 2**16 / 2**32 width boundaries
     return {'kind': kind, 'pick': [rng.random() for _ in range(6)], 'unknown': [rng.random() < 0.5 for _ in range(4)] if rng.random() < 0.2 else None,
@@ -181,6 +181,10 @@ def resolve_vector(spec, local, self_seq, nodes):
             ents.append((known[0], cur(known[0]) + 1))
     elif kind == 'unknown-node':
         ents = [([C(b'n'), C(b'new%d' % spec['delta'][0])], spec['delta'][1]), (known[0], cur(known[0]))]
+    elif kind == 'many-nodes':
+        # a large group: the encoded vector is longer than 252 octets (its length takes the three-octet form)
+        ents = [([C(b'n'), C(b'peer%02d' % j)], 1 + (j + spec['delta'][1]) % 3) for j in range(14 + spec['delta'][0] % 8)]
+        ents.insert(int(spec['pick'][0] * len(ents)), (known[0], min(cur(known[0]) + 1, 2**64 - 1)))
     elif kind == 'self-too-much':
         ents = [(known[0], min(cur(known[0]) + 2, 2**64 - 1)), (SELF, min(self_seq + spec['delta'][0], 2**64 - 1))]
         if spec['pick'][0] < 0.5:
@@ -394,6 +398,8 @@ def execute(ctx, hist, rng):
             if ev[0] in ('recv', 'pub-recv'):
                 ents, flags = resolve_vector(ev[1], model_local, self_seq, nodes)
                 comp = sv_component(ents, ev[1]['kind'], ev[1].get('unknown'))
+                if len(comp) > 255 and ev[1]['kind'] == 'many-nodes':
+                    ctx.event('vector-longer-than-252-octets')
                 if ev[1].get('unknown') and any(ev[1]['unknown']) and len(ents) > 1:
                     ctx.event('vector-with-unknown-elements-between-entries')
                 name = BASE_PREFIX + [comp] + ([C(b'extra')] if flags['extra_comp'] else [])
@@ -794,7 +800,7 @@ def run(ctx):
               'publication-next-to-reception', 'publication-before-start', 'instance-restarted', 'vector-with-unknown-elements-between-entries',
               'vector-for-a-second-group-on-the-same-application', 'second-group-stopped-first-goes-on', 'instance-restarted-without-yielding',
               'publication-whose-announcement-failed-in-the-transport',
-              'second-start-refused', 'wall-clock-stepped-while-a-timer-is-armed', 'vector-with-its-validator-when-the-instance-is-stopped'):
+              'second-start-refused', 'vector-longer-than-252-octets', 'wall-clock-stepped-while-a-timer-is-armed', 'vector-with-its-validator-when-the-instance-is-stopped'):
         ctx.need_event(k)
     ctx.assumptions = ['when suppression is entered is read from the instance (not part of the statement)',
                        'a vector containing a malformed entry may be merged without that entry or ignored entirely',
